@@ -442,6 +442,12 @@ def handle (j : Json) : D Json := do
     pure (Json.mkObj [("ok", Json.arr (cols.map (fun c =>
       let p := Profiler.profileColumn c
       Json.arr #[Json.str p.1, Json.str p.2.1, Json.str p.2.2])).toArray)])
+  | "profile_table" =>
+    let t ← decFrame (fldD j "table" Json.null)
+    let attrs ← decOptStrList j "attrs"
+    match Profiler.profileTable t attrs with
+    | .ok rows => pure (Json.mkObj [("ok", Json.arr (rows.map (fun r => Json.arr #[Json.str r.1, Json.str r.2.1, Json.str r.2.2.1, Json.str r.2.2.2])).toArray)])
+    | .error e => pure (Json.mkObj [("err", Json.str (encErr e))])
   | _ => throw s!"unknown op {op}"
 
 partial def loop (h : IO.FS.Stream) (out : IO.FS.Stream) : IO Unit := do
